@@ -45,7 +45,7 @@ theorem ampBind_witness :
 
 /-- **numa_amplified_bind_counterexample**: "a successful Allocate + Update keeps every NUMA node charged within
     its capacity" is FALSE for the code as it is when the cpu amplification ratio is > 1 and the pod binds CPUs. -/
-theorem numa_amplified_bind_counterexample :
+theorem ampBind_refutes :
     ¬ (∀ (cfg : NodeCfg) (L : Ledger) (req : AllocReq) (p : PodAlloc), 0 < cfg.den → Inv L →
         ChargedWithin cfg L → allocate cfg L req = some p → ChargedWithin cfg (step L (.upd p))) := by
   intro h
@@ -64,7 +64,7 @@ theorem amplify_zero (num den : Int) (hden : 0 < den) : amplify num den 0 = 0 :=
 
 /-- what still holds: without amplification (ratio ≤ 1) or on a NUMA node without bound CPUs the charge IS the
     recorded amount — so there `numa_within_capacity` bounds it by the capacity. -/
-theorem numa_charged_eq_recorded_partial (num den : Int) (nodeOf : Nat → Nat) (L : Ledger) (k : Nat)
+theorem charged_eq_recorded (num den : Int) (nodeOf : Nat → Nat) (L : Ledger) (k : Nat)
     (hden : 0 < den) (h : num ≤ den ∨ allocCPUMilli nodeOf L.cpus (k / 16) = 0) :
     chargedCell num den nodeOf L k = getI L.res k := by
   unfold chargedCell
